@@ -47,31 +47,6 @@ Fixpoint own_stdout (log : list event) : bytes :=
   | e :: l => own_stdout l ++ match e with EvWrite WStdout b => b | _ => [] end
   end.
 
-(* is an output stream open for n after the events of log? *)
-Fixpoint open_in_log (n : name) (log : list event) : option okind :=
-  match log with
-  | [] => None
-  | EvOpen m k _ :: l => if m =? n then Some k else open_in_log n l
-  | EvClose m false _ :: l => if m =? n then None else open_in_log n l
-  | _ :: l => open_in_log n l
-  end.
-
-(* one name, one stream: a stream is opened only for a name that has none, and
-   every write to a name goes to the stream opened last for it *)
-Fixpoint log_wf (log : list event) : Prop :=
-  match log with
-  | [] => True
-  | e :: l =>
-      log_wf l /\
-      match e with
-      | EvOpen n _ _ => open_in_log n l = None
-      | EvWrite (WFile n) _ => open_in_log n l = Some KFile
-      | EvWrite (WCmd n) _ => open_in_log n l = Some KCmd
-      | EvClose n false _ => open_in_log n l <> None
-      | _ => True
-      end
-  end.
-
 (* every process was started with goawk's stdout buffer empty (or dead) *)
 Definition start_ok (e : event) : Prop :=
   match e with EvStart _ pending err => pending = 0%nat \/ err = true | _ => True end.
